@@ -1454,6 +1454,9 @@ class Directory(HashableObjectWithManifest, BaseModel):
 
         # 3. strip duplicates
         deduplicated_entries = []
+        # names that are taken: every original name, then every name given to a
+        # renamed entry
+        used_names = set(entries_by_name)
         for entry_lists in entries_by_name.values():
             # We could pick one entry at random to keep the original name; but we try to
             # "minimize" the impact, by preserving entries of type "rev" first
@@ -1476,9 +1479,17 @@ class Directory(HashableObjectWithManifest, BaseModel):
                         # this one; so this one must be renamed to something.
                         # we pick the beginning of its hash, it should be good enough
                         # to avoid any conflict.
-                        new_name = (
+                        base_name = (
                             entry.name + b"_" + hash_to_bytehex(entry.target)[0:10]
                         )
+                        # ... unless that name is already taken (by another entry
+                        # of the directory, or by a previously renamed one)
+                        new_name = base_name
+                        attempt = 0
+                        while new_name in used_names:
+                            attempt += 1
+                            new_name = base_name + b"_%d" % attempt
+                        used_names.add(new_name)
                         renamed_entry = attr.evolve(entry, name=new_name)
                         deduplicated_entries.append(renamed_entry)
 
